@@ -48,6 +48,40 @@ def main(argv=None):
         print("VIOLATION property=%s replay=%s" % (pid, args.replay))
         return 1
 
+    # watchdog: a check that cannot reach a verdict (a changed library can make a call spin, or make states
+    # stop merging) ends as a harness error instead of hanging; generous, so that a loaded machine does not trip it
+    import signal
+    limit = int(os.environ.get("VERIF_WALL_LIMIT") or (3600 if args.tier == "quick" else 6 * 3600))
+
+    def _expired(signum, frame):
+        print("HARNESS-ERROR property=%s no verdict within %d s wall clock (tier %s): the exploration did not "
+              "terminate; nothing is claimed by this run" % (pid, limit, args.tier), flush=True)
+        # kill our own descendants (pool workers), nobody else
+        try:
+            kids = {}
+            for d in os.listdir("/proc"):
+                if d.isdigit():
+                    try:
+                        with open("/proc/%s/stat" % d) as f:
+                            kids.setdefault(int(f.read().rsplit(")", 1)[1].split()[1]), []).append(int(d))
+                    except Exception:
+                        pass
+            todo, mine = [os.getpid()], []
+            while todo:
+                for k in kids.get(todo.pop(), []):
+                    mine.append(k)
+                    todo.append(k)
+            for k in mine:
+                try:
+                    os.kill(k, signal.SIGKILL)
+                except Exception:
+                    pass
+        except Exception:
+            pass
+        os._exit(2)
+    signal.signal(signal.SIGALRM, _expired)
+    signal.alarm(limit)
+
     ctx = core.Ctx(pid, args.tier)
     ctx.level = getattr(mod, "LEVEL", "exploration")
     ctx.rule = getattr(mod, "RULE", "")
